@@ -136,7 +136,7 @@ class Part:
         empty = '(Build_snap [[]; []; []; []] [None; None; None; None; None] [""%string; ""%string; ""%string; ""%string; ""%string] [""%string; ""%string; ""%string; ""%string; ""%string] [] false)'
 
         def quiet(state):
-            return "(Build_step_obs [] None %s)" % (tj(state) if state is not None else empty)
+            return "(Build_step_obs [] None %s false)" % (tj(state) if state is not None else empty)
         for op, st in zip(c["ops"], steps[nstart:]):
             k = op["op"]
             if k == "sleep_until":
